@@ -323,7 +323,7 @@ class Report(object):
                 txt = txt[len('property=%s ' % self.prop):]
             out_lines.append('KNOWN-FINDING: property=%s %s (matched %d transitions in this run)' % (self.prop, txt, c))
         nviol = 0
-        rdir = os.path.join(VERIF, 'replays', self.prop)
+        rdir = os.path.join(os.environ.get('VERIF_REPLAY_DIR') or os.path.join(VERIF, 'replays'), self.prop)
         if os.path.isdir(rdir) and not os.environ.get('VERIF_KEEP_REPLAYS'):
             for fn in os.listdir(rdir):
                 try:
@@ -331,7 +331,7 @@ class Report(object):
                 except OSError:
                     pass
         for i, (r, v) in enumerate(violations):
-            path = os.path.join(VERIF, 'replays', self.prop, '%s_%d.json' % (
+            path = os.path.join(rdir, '%s_%d.json' % (
                 r.name.replace('/', '_').replace(' ', '_')[:80], i))
             os.makedirs(os.path.dirname(path), exist_ok=True)
             confirmed = True
@@ -357,8 +357,9 @@ class Report(object):
         ev = dict(property_id=self.prop, tier=self.tier, seed=self.seed, level='model_checking',
                   coverage=cov, assumptions=self.assumptions,
                   wall_s=round(time.time() - self.t0, 2), violations=nviol)
-        os.makedirs(os.path.join(VERIF, 'evidence'), exist_ok=True)
-        with open(os.path.join(VERIF, 'evidence', self.prop + '.json'), 'w') as f:
+        evdir = os.environ.get('VERIF_EVIDENCE_DIR') or os.path.join(VERIF, 'evidence')
+        os.makedirs(evdir, exist_ok=True)
+        with open(os.path.join(evdir, self.prop + '.json'), 'w') as f:
             json.dump(ev, f, indent=1)
         for l in out_lines:
             print(l)
